@@ -28,6 +28,7 @@
 #include "galois/runtime/Substrate.h"
 #include "galois/substrate/PerThreadStorage.h"
 #include "galois/substrate/Termination.h"
+#include "galois/substrate/Verif.h"
 #include "galois/worklists/Chunk.h"
 #include "galois/worklists/WorkListHelpers.h"
 
@@ -283,6 +284,7 @@ private:
     bool localLeader = substrate::ThreadPool::isLeader();
     Index msS        = this->earliest;
 
+    GALOIS_VERIF_POINT(OBIM_SLOWPOP);
     updateLocal(p);
 
     if (BSP && !UseMonotonic) {
@@ -332,6 +334,7 @@ private:
       p.local[i]          = C2;
       p.lastMasterVersion = masterVersion.load(std::memory_order_relaxed) + 1;
       masterLog.push_back(std::make_pair(i, C2));
+      GALOIS_VERIF_POINT(OBIM_LOG_PUBLISH);
       masterVersion.fetch_add(1);
     }
     masterLock.unlock();
@@ -443,6 +446,7 @@ public:
     p.hasWork = !p.stored.empty();
 
     this->barrier.wait();
+    GALOIS_VERIF_POINT(OBIM_EMPTY_BARRIER);
 
     // align with the earliest level from threads that have works
     bool hasWork   = p.hasWork;
